@@ -38,9 +38,11 @@ func returnedValue(ret *ssa.Return, idx int) ssa.Value {
 	for depth := 0; depth < 4 && b != nil; depth++ {
 		for i := len(b.Instrs) - 1; i >= 0; i-- {
 			if st, ok := b.Instrs[i].(*ssa.Store); ok && st.Addr == ssa.Value(al) {
-				if b == ret.Block() || true {
-					return st.Val
+				// "return err" of a named result stores the variable to itself: look further back
+				if u2, ok := st.Val.(*ssa.UnOp); ok && u2.X == ssa.Value(al) {
+					continue
 				}
+				return st.Val
 			}
 		}
 		if len(b.Preds) != 1 {
